@@ -205,6 +205,11 @@ class Creation(Engine):
                     else:
                         h = darr.asarray(self._path(sc, path), src, dtype=dtarg, accessmode=sc['mode'], chunklen=chunklen)
             except Exception as e:
+                if kind == 'chunkiter' and all(c.get('form') == 'npscalar' for c in sc.get('chunks', [{}])):
+                    # an iterator of bare numbers: a number is not a chunk with an axis 0, so a refusal is not a
+                    # violation of the statement (the pinned tree accepts it: each number a chunk of one element)
+                    st['probes']['iterator_of_numbers_refused'] = 1
+                    continue
                 raise Viol('create.raises', f'{kind}:{type(e).__name__}', f'chunklen={chunklen} {str(e)[:300]}')
             for who, hh in (('returned', h), ('fresh', None)):
                 if hh is None:
